@@ -1721,9 +1721,16 @@ def run_c13(ctx: fw.Ctx) -> None:
     refs = refparse([c[0] for c in cases])
     outs, outs_off = [], []
     NoComments = mkstyle(dict(INCLUDE_COMMENTS=False))
+    import time as _time
+    t_loop = _time.time()
     for (src, exp), ref in zip(cases, refs):
         if not ref.startswith("ok"):
             raise fw.InfraError(f"C13 generator produced an invalid program: {src!r} {ref}")
+        if _time.time() - t_loop > (90 if ctx.quick else 1500):
+            # on the unchanged tree this loop takes a few seconds; code that gets slower with every call (state growing from parse to parse) must not
+            # keep the check from reporting what the cases so far show
+            st.notes["stopped early: parse/format became slow"] = True
+            break
         case = {"kind": "comments", "source": src, "expected": exp}
         st.record(case, key=src, nontrivial=bool(exp))
         status, ast = tparse(src)
